@@ -118,6 +118,12 @@ def well_typed(tier):
             loc += f"    l = [{', '.join(elems)}]\n    g2 = [u(e) for e in l]\n    return [r0, out, g2]\n"
             loc += f"def u(p: {union}) -> str:\n    return str(p)\nr = loc()\n"
             yield loc
+    # results that may be None (dict.get, a conditional expression, a search that finds nothing) compared with None / defaulted
+    for opt in ["dd.get(k)", "dd.get(k, None)", "(dd[k] if k in dd else None)", "{k: 1}.get('zz')", "[e for e in [1] if e > 5] or None"]:
+        for test in ["v == None", "v != None", "None == v", "not v", "v", "type(v) == 'NoneType'"]:
+            yield pre + (f"def lk(dd: dict[str, int], k: str) -> int:\n    v = {opt}\n    if {test}:\n        return -1\n    return 7\n"
+                         "r = [lk(d, 'a'), lk(d, 'zz')]\n")
+        yield pre + f"def lk(dd: dict[str, int], k: str) -> int:\n    return {opt} or 0\nr = [lk(d, 'a'), lk(d, 'zz')]\n" if "for e" not in opt else pre + "r = 1\n"
     ann = {"int": ints, "str": strs, "bool": bools, "list[int]": lists, "dict[str, int]": dicts}
     for ty, exprs in ann.items():
         for e in exprs:
